@@ -167,3 +167,44 @@ func init() {
 	Checks["C07"] = checkC07
 	Checks["X-load"] = checkC07 // scratch alias: same run without the known-findings filter of C07
 }
+
+func strList(v any) []string {
+	xs, _ := v.([]any)
+	out := make([]string, 0, len(xs))
+	for _, x := range xs {
+		if s, ok := x.(string); ok {
+			out = append(out, s)
+		}
+	}
+	return out
+}
+
+func init() {
+	// replay of a C07 case: the stored sources through correspondence + spec judgement
+	Replayers["C07"] = func(c *Ctx, rep map[string]any) {
+		srcs := strList(rep["sources"])
+		if len(srcs) == 0 {
+			fmt.Println("replay: no sources in the replay file")
+			return
+		}
+		cases := c.corrLoad([][]string{srcs}, nil)
+		c.specLoad(cases)
+		c.specLoadSummary()
+	}
+	// replay of a C17 case: the two stored orderings compared
+	Replayers["C17"] = func(c *Ctx, rep map[string]any) {
+		a, b := strList(rep["sources_a"]), strList(rep["sources_b"])
+		if len(a) == 0 {
+			fmt.Println("replay: no sources in the replay file")
+			return
+		}
+		it := orderItem{label: "replay", variants: [][]string{a}}
+		if len(b) > 0 {
+			it.variants = append(it.variants, b)
+		}
+		st := &orderStats{}
+		c.orderCheck([]orderItem{it}, st, false)
+		c.orderFlush(st)
+		c.corrLoad(it.variants, nil)
+	}
+}
